@@ -47,6 +47,8 @@ func propC02(w *World, r *Run) {
 	ruleConfigKeying(w, r, "C02.c")
 	ruleParseBodyTotal(w, r, "C02.d", "C02.d")
 	ruleServeHTTP(w, r, "C02.d", "C02.d", "C02.d")
+	ruleComposedInMemory(w, r, "C02.e")
+	ruleComposedSQL(w, r, "C02.e")
 }
 
 func propC03(w *World, r *Run) {
@@ -73,6 +75,7 @@ func propC04(w *World, r *Run) {
 	ruleFreshNoShortCircuit(w, r, a, "C04.c")
 	ruleReadVerbatim(w, r, "C04.d")
 	ruleImmut(w, r, "C04.e", immutCoreFields(w, r, "C04.e", "Witness"))
+	ruleReadAPIAs(w, r, "C04.f")
 }
 
 func propC07(w *World, r *Run) {
@@ -105,6 +108,7 @@ func propC08(w *World, r *Run) {
 	ruleCloseIsRollback(w, r, "C08.c")
 	ruleNoLeakedTx(w, r, "C08.c")
 	ruleParseBodyTotal(w, r, "C08.d", "C08.d")
+	ruleServeHTTP(w, r, "C08.e", "C08.e", "C08.e")
 }
 
 func propC09(w *World, r *Run) {
@@ -116,6 +120,7 @@ func propC09(w *World, r *Run) {
 	ruleDecisionTable(w, r, a, "C09.a")
 	ruleSentinelExhaustive(w, r, a, "C09.b")
 	ruleTouchByComparison(w, r, a, "C09.c")
+	ruleNotFoundExact(w, r, "C09.d")
 }
 
 func propC20(w *World, r *Run) {
@@ -194,6 +199,7 @@ func propC11(w *World, r *Run) {
 	ruleParseBodyTotal(w, r, "C11.b", "C11.d")
 	ruleUnmarshalTotal(w, r, "C11.b")
 	ruleStrictInteger(w, r, "C11.c")
+	ruleCapsAndTimeouts(w, r, "C11.f", "C11.f")
 }
 
 func init() {
@@ -206,6 +212,7 @@ func propC13(w *World, r *Run) {
 	r.trusted = append(tbCommon, "backoff.Retry/WithContext/Permanent contracts, formats/log.ParseCheckpoint")
 	ruleFeeder(w, r)
 	ruleAdapter(w, r, "C13.f")
+	ruleNoLeakedTx(w, r, "C13.g")
 }
 
 func init() {
@@ -219,6 +226,7 @@ func propC15(w *World, r *Run) {
 	r.trusted = append(tbCommon, "formats/log.ParseCheckpoint (Sigs lists verified signatures only), net/http client")
 	ruleDistributor(w, r)
 	ruleImmut(w, r, "C15.a", immutCoreFields(w, r, "C15.a", "Distributor"))
+	ruleDistributorGetsAllLogs(w, r, "C15.f")
 }
 
 func propC16(w *World, r *Run) {
@@ -296,6 +304,7 @@ func propC18(w *World, r *Run) {
 	r.notdec = []string{"the x%03d carry encoding for all indices (O3: an off-by-one inside tilePath's arithmetic is invisible to constant agreement)", "acceptance of the proofs by an RFC 6962 verifier"}
 	r.trusted = append(tbCommon, "golang.org/x/mod/sumdb/tlog (reference implementation, pinned)")
 	ruleSumDBConstants(w, r)
+	ruleNoManualEncoding(w, r, "C18.e")
 }
 
 func propC19(w *World, r *Run) {
